@@ -118,6 +118,15 @@ def run(ctx):
     fol = dcorpus.follower_stream(rnd, 3000, 60000)
     comps.append(fol)
     folbig = dcorpus.follower_stream(rnd, 60000, 700000)
+    # one expensive block followed by very many cheap ones: the head of line holds the reserved resources while
+    # everything else piles up behind it (order_q / reord_q pressure)
+    import bz2 as _bz2
+    for i in range(2 if q else 8):
+        head = gen.uniform(rnd, rnd.choice([300000, 800000]))
+        tiny = [bytes([65 + k % 26]) * (1 + k % 5) for k in range(rnd.choice([120, 400]))]
+        data = core.run([lb, '-9', '-n', '2'], stdin=head, timeout=120).out + b''.join(_bz2.compress(t, 1) for t in tiny)
+        comps.append((data, head + b''.join(tiny)))
+        many_tiny_idx = len(comps) - 1
     with open(os.path.join(core.REPO, 'tests', 'ch255.bz2'), 'rb') as f:
         bomb = f.read()
     v, info, bombout = ora.refbz(bomb)
@@ -153,6 +162,13 @@ def run(ctx):
         cs.append(dict(kind='decompress', name='flood-f3', stdin=f3, w=w,
                        env={'LBZIP2_VERIF_SCHED': '%d:jitter' % rnd.randrange(1, 1 << 30), 'LBZIP2_VERIF_IN_GRANUL': '64'},
                        argv=(lambda lb, w=w: [lb, '-d', '-n', str(w)]), expect_rc=0, expect_out=f3out))
+    for i in range(30 if q else 600):
+        data, plain = comps[many_tiny_idx - (i % 2 if not q else 0)] if not q else comps[many_tiny_idx - i % 2]
+        w = rnd.choice([2, 2, 3, 4])
+        env = {'LBZIP2_VERIF_SCHED': '%d:straggler:%d' % (rnd.randrange(1, 1 << 30), rnd.choice([30, 80, 150]))}
+        cs.append(dict(kind='decompress', name='head+many-tiny', stdin=data, w=w, env=env,
+                       argv=(lambda lb, w=w: [lb, '-d', '-n', str(w)]), expect_rc=0, expect_out=plain,
+                       feed=rnd.choice([None, ([len(data) // 3, 1 << 20], 0.05)])))
     # failing decompression: trace is a prefix, order must still hold
     for i in range(20 if q else 600):
         data, plain = rnd.choice(comps[:10])
